@@ -17,6 +17,10 @@ pub mod c13;
 #[cfg(feature = "sched")]
 pub mod c14;
 #[cfg(feature = "sched")]
+pub mod c15;
+#[cfg(feature = "sched")]
+pub mod c16;
+#[cfg(feature = "sched")]
 pub mod sched_common;
 pub mod c17;
 pub mod c18;
@@ -29,6 +33,8 @@ pub fn all() -> Vec<Box<dyn Property>> {
     #[cfg(feature = "sched")]
     {
         v.push(Box::new(c14::C14));
+        v.push(Box::new(c15::C15));
+        v.push(Box::new(c16::C16));
     }
     v
 }
